@@ -179,6 +179,11 @@ Definition obj_node (f : fl) (n fld : nat) : list Z :=     (* 0 m_freeListRefs, 
   match f with FHp => [8%Z; zn n; zn fld] | FRt => [9%Z; zn n; zn fld] end.
 
 Definition acc (k : akind) (o : list Z) (ok : bool) : list ev := [EvAcc k o ok].
+Definition fl_z (f : fl) : Z := match f with FHp => 0%Z | FRt => 1%Z end.
+(** allocator ghost events: block b taken from free list f / freshly created / given back *)
+Definition ev_alloc (f : fl) (b : nat) : ev := EvCli "_alloc" [fl_z f; zn b].
+Definition ev_new (f : fl) (b : nat) : ev := EvCli "_new" [fl_z f; zn b].
+Definition ev_free (f : fl) (b : nat) : ev := EvCli "_free" [fl_z f; zn b].
 
 (** ghost events (model only; names start with '_', dropped before the logs are compared) *)
 Definition gref_z (s : gref) : list Z := match s with GI r i => [0%Z; zn r; zn i] | GE b i => [1%Z; zn b; zn i] end.
@@ -186,6 +191,9 @@ Definition ev_slot (s : gref) (v : nat) : ev := EvCli "_slot" (gref_z s ++ [zn v
 Definition ev_own (s : gref) : ev := EvCli "_own" (gref_z s).
 Definition ev_rel (s : gref) : ev := EvCli "_rel" (gref_z s).
 Definition ev_relall : ev := EvCli "_relall" [].
+Definition ev_att (r : nat) : ev := EvCli "_att" [zn r].
+Definition ev_det (r : nat) : ev := EvCli "_det" [zn r].
+Definition ev_link (r b : nat) : ev := EvCli "_link" [zn r; zn b].
 Definition ev_scanb (r : nat) : ev := EvCli "_scanb" [zn r].
 Definition ev_scane (r : nat) : ev := EvCli "_scane" [zn r].
 Definition ev_dispose (p : nat) : ev := EvCli "dispose" [zn p].
@@ -214,8 +222,14 @@ Definition a_ld_ext (r : nat) : A (option nat) := fun g => (g, r_ext (grec g r),
 Definition a_st_ext (r : nat) (v : option nat) : A unit := fun g => (upd_rec g r (rs_ext v), tt, acc KSt (obj_rec r 3) true).
 
 Definition a_ld_slot (s : gref) : A nat := fun g => (g, slot_get g s, acc KLd (obj_slot s) true).
+(** does [s] name an existing cell? (the ghost event is emitted only for a store that hits a cell) *)
+Definition slot_valid (g : G) (s : gref) : bool :=
+  match s with
+  | GI r i => Nat.ltb r (List.length (recs g)) && Nat.ltb i (List.length (r_slots (grec g r)))
+  | GE b i => Nat.ltb b (List.length (gbs g)) && Nat.ltb i (List.length (gb_slots (ggb g b)))
+  end.
 Definition a_st_slot (s : gref) (v : nat) : A unit := fun g =>
-  (slot_set g s v, tt, acc KSt (obj_slot s) true ++ [ev_slot s v]).
+  (slot_set g s v, tt, acc KSt (obj_slot s) true ++ (if slot_valid g s then [ev_slot s v] else [])).
 
 Definition a_ld_src (k : nat) : A nat := fun g => (g, nth k (srcs g) 0, acc KLd (obj_src k) true).
 Definition a_st_src (k v : nat) : A unit := fun g =>
@@ -328,15 +342,15 @@ Fixpoint link_guards (b i n : nat) : P unit :=
 Definition hp_alloc (c : cfg) : P nat :=
   o <- fl_get (c_spin c) FHp ;;
   b <- match o with
-       | Some b => ret b
-       | None => nb <- loc (new_gblock c) ;; act (a_st_flnext FHp nb None) ;;; ret nb
+       | Some b => emit [ev_alloc FHp b] ;;; ret b
+       | None => nb <- loc (new_gblock c) ;; emit [ev_new FHp nb] ;;; act (a_st_flnext FHp nb None) ;;; ret nb
        end ;;
   link_guards b 0 (c_GB c - 1) ;;;
   loc (fun g => (snext_set g (GE b (c_GB c - 1)) None, tt)) ;;;
   act (a_st_slot (GE b (c_GB c - 1)) 0) ;;;
   ret b.
 
-Definition hp_free (c : cfg) (b : nat) : P unit := fl_put (c_spin c) FHp b.
+Definition hp_free (c : cfg) (b : nat) : P unit := emit [ev_free FHp b] ;;; fl_put (c_spin c) FHp b.
 
 (** *** retired_allocator *)
 Definition new_rblock (c : cfg) : G -> G * nat := fun g =>
@@ -345,13 +359,14 @@ Definition new_rblock (c : cfg) : G -> G * nat := fun g =>
 Definition rt_alloc (c : cfg) : P nat :=
   o <- fl_get (c_spin c) FRt ;;
   b <- match o with
-       | Some b => ret b
-       | None => nb <- loc (new_rblock c) ;; act (a_st_flnext FRt nb None) ;;; ret nb
+       | Some b => emit [ev_alloc FRt b] ;;; ret b
+       | None => nb <- loc (new_rblock c) ;; emit [ev_new FRt nb] ;;; act (a_st_flnext FRt nb None) ;;; ret nb
        end ;;
   loc (fun g => (upd_rb g b (bs_next None), tt)) ;;;
   ret b.
 
 Definition rt_free (c : cfg) (b : nat) : P unit :=
+  emit [ev_free FRt b] ;;;
   loc (fun g => (upd_rb g b (bs_next None), tt)) ;;;
   fl_put (c_spin c) FRt b.
 
@@ -363,6 +378,7 @@ Definition hp_extend (c : cfg) (r : nat) : P unit :=
   e <- act (a_ld_ext r) ;;
   loc (fun g => (upd_gb g b (gs_nextb e), tt)) ;;;
   act (a_st_ext r (Some b)) ;;;
+  emit [ev_link r b] ;;;
   loc (fun g => (upd_rec g r (rs_fhead (Some (GE b 0))), tt)).
 
 (** alloc(): if ( free_head_ == nullptr ) extend(); g = free_head_; free_head_ = g->next_; return g; *)
@@ -819,13 +835,13 @@ Definition run_op (c : cfg) (t : nat) (l : L) (o : op) : P L :=
       inv 1 [] ;;;
       match l_tls l with
       | Some _ => skip ;;; ret l
-      | None => r <- alloc_thread_data c mytid ;; rsp 0 ;;; ret (mkL (Some r) [])
+      | None => r <- alloc_thread_data c mytid ;; emit [ev_att r] ;;; rsp 0 ;;; ret (mkL (Some r) [])
       end
   | ODetach =>
       inv 2 [] ;;;
       match l_tls l with
       | None => skip ;;; ret l
-      | Some r => emit [ev_relall] ;;; free_thread_data c r mytid true ;;; rsp 0 ;;; ret (mkL None [])
+      | Some r => emit [ev_relall; ev_det r] ;;; free_thread_data c r mytid true ;;; rsp 0 ;;; ret (mkL None [])
       end
   | OGalloc j =>
       inv 3 [j] ;;;
